@@ -11,6 +11,18 @@ Proof.
   apply forallb_forall. exact H.
 Qed.
 
+Lemma query_route_facts r : In r routes -> is_query_route r = true ->
+  smem checker_name (rt_mws r) = true /\ rt_methods r = query_methods /\ query_methods <> [].
+Proof.
+  intros Hin Hq. pose proof (routes_guarded _ Hin) as G. unfold route_guarded in G. rewrite Hq in G.
+  apply andb_true_iff in G. destruct G as [G Hne]. apply andb_true_iff in G. destruct G as [Hc Hm].
+  split; [exact Hc|]. split.
+  - clear -Hm. revert Hm. generalize (rt_methods r) as a. generalize query_methods as b.
+    intros b a. revert b. induction a as [|x a IH]; intros [|y b]; cbn; intros H; try discriminate; [reflexivity|].
+    apply andb_true_iff in H. destruct H as [Hx Hr]. apply String.eqb_eq in Hx. subst. f_equal. apply IH. exact Hr.
+  - destruct query_methods; [discriminate | discriminate].
+Qed.
+
 Lemma nonempty_true s : nonempty s = true <-> s <> ""%string.
 Proof.
   unfold nonempty. rewrite negb_true_iff. split.
@@ -44,13 +56,33 @@ Proof.
   unfold serve. destruct clean; cbn [negb]; [|discriminate].
   destruct (dispatch m p) as [rt|] eqn:D; [|discriminate].
   unfold dispatch in D. apply find_some in D. destruct D as [Hin _].
-  pose proof (routes_guarded _ Hin) as G. unfold route_guarded in G.
   destruct (smem checker_name (rt_mws rt)) eqn:C.
   - destruct (authorized required hdr) eqn:A.
     + intros _. apply authorized_iff. exact A.
     + destruct (denied_reply required hdr). discriminate.
   - destruct (smem (rt_handler rt) sensitive) eqn:S; [|discriminate].
-    cbn [orb] in G. discriminate.
+    assert (Hq : is_query_route rt = true) by (unfold is_query_route; rewrite S; reflexivity).
+    destruct (query_route_facts _ Hin Hq) as [Hc _]. rewrite Hc in C. discriminate.
+Qed.
+
+(* the verdict of the check does not depend on the method: a method the table does not list for the /query/
+   sub-router never reaches a revealing handler, and a listed one gets data only when authorized (above) *)
+Theorem unlisted_method_no_data required clean m p hdr h :
+  ~ In m query_methods -> In h sensitive -> serve required clean m p hdr <> QData h.
+Proof.
+  intros Hm Hs E. unfold serve in E. destruct clean; cbn [negb] in E; [|discriminate].
+  destruct (dispatch m p) as [rt|] eqn:D; [|discriminate].
+  unfold dispatch in D. apply find_some in D. destruct D as [Hin Hmatch].
+  assert (Hh : rt_handler rt = h).
+  { destruct (smem checker_name (rt_mws rt)).
+    - destruct (authorized required hdr); [inversion E; reflexivity|]. destruct (denied_reply required hdr). discriminate.
+    - destruct (smem (rt_handler rt) sensitive); [inversion E; reflexivity | discriminate]. }
+  assert (Hq : is_query_route rt = true).
+  { unfold is_query_route. apply smem_In in Hs. rewrite Hh, Hs. reflexivity. }
+  destruct (query_route_facts _ Hin Hq) as [_ [Hmeth Hne]].
+  unfold route_matches in Hmatch. apply andb_true_iff in Hmatch. destruct Hmatch as [Hmm _].
+  rewrite Hmeth in Hmm. destruct query_methods as [|q qs] eqn:Q; [exfalso; apply Hne; reflexivity|].
+  apply smem_In in Hmm. contradiction.
 Qed.
 
 Theorem sensitive_never_unguarded required clean m p hdr h :
